@@ -20,7 +20,7 @@ from ..oracles import sigmodel as sm
 PID = "C06"
 LEVEL = "exploration"
 RULE = ("full product of operation sequences (depth<=2 quick / 3 thorough, 4 for the plain FunctionSignal) over the "
-        "18-operation signal alphabet x all read masks, on 7 kinds of function-backed signals (plain 1- and 2-component, "
+        "19-operation signal alphabet x all read masks, on 7 kinds of function-backed signals (plain 1- and 2-component, "
         "ZHS/AVZ/ARZ Askaryan, FFT/Full thermal noise under OwnedRandom); and of attribute-assignment sequences "
         "(depth<=2/3) x read masks on Specialized/Basic/Uniform/Layered tracers and their paths; distinct_nontrivial = "
         "distinct (kind, op sequence, mask) with at least one read before a mutation")
@@ -40,7 +40,9 @@ FILTERS = sm.make_filters(DT)
 SIG_OPS = ["shift+3", "shift-5", "imul2", "idiv4", "filt_delay2", "filt_lowpass", "buf_lead4", "buf_trail3_force",
            "buf_zero_force", "resample17", "times_assign", "with_times_sub", "with_times_super", "add_late", "copy",
            # derive a child, mutate the child, keep going on the parent (no-ops on the parent if nothing is shared)
-           "child_with_times_sub", "child_copy_filter", "child_sum_filter_buf"]
+           "child_with_times_sub", "child_copy_filter", "child_sum_filter_buf",
+           # augmented assignment: the attribute is mutated in place and the *same* object is assigned back
+           "times_iadd"]
 SIG_KINDS = ["plain_early", "plain_two", "zhs", "avz", "arz", "fftnoise", "fullnoise"]
 
 
@@ -165,6 +167,10 @@ def _apply_sig(obj, mod, op):
         obj = obj.copy()
         if mod:
             mod = mod.copy()
+    elif op == "times_iadd":
+        obj.times += 2 * dt
+        if mod:
+            mod.times = [x + 2 * dt for x in mod.times]
     elif op == "child_with_times_sub":
         child = obj.with_times(np.array(obj.times)[2:-1].copy())
         child.set_buffers(trailing=2 * dt)
@@ -342,7 +348,7 @@ def _make_ray(kind):
 
 
 def _ray_ops(kind):
-    ops = ["from=C", "to=D", "from=B,to=A"]
+    ops = ["from=C", "to=D", "from=B,to=A", "to+=dx"]
     if kind.endswith("tracer"):
         if kind in ("spec_tracer", "basic_tracer"):
             ops += ["ice=greenland", "dz=0.5"]
@@ -366,6 +372,8 @@ def _apply_ray(obj, op):
     elif op == "from=B,to=A":
         obj.from_point = np.array(P_B)
         obj.to_point = np.array(P_A)
+    elif op == "to+=dx":
+        obj.to_point += np.array([37.0, -11.0, -3.0])      # in-place change, same array object assigned back
     elif op == "ice=greenland":
         obj.ice = GreenlandIce()
     elif op == "ice=uniform2":
